@@ -1327,6 +1327,7 @@ _dispatch_queue_try_acquire_barrier_sync_and_suspend(dispatch_lane_t dq,
 			(suspend_count * DISPATCH_QUEUE_SUSPEND_INTERVAL);
 	uint64_t old_state, new_state;
 
+	if (DISPATCH_VERIF_UNUSUAL(0)) return false;
 	// The state is still `completely idle` while a thread that made the queue
 	// non-empty sits between publishing its item and its dx_wakeup(), so
 	// also check that nothing has been enqueued ahead of this call or we can
@@ -1377,6 +1378,7 @@ _dispatch_queue_try_reserve_sync_width(dispatch_lane_t dq)
 {
 	uint64_t old_state, new_state;
 
+	if (DISPATCH_VERIF_UNUSUAL(1)) return false;
 	// <rdar://problem/24738102&24743140> reserving non barrier width
 	// doesn't fail if only the ENQUEUED bit is set (unlike its barrier width
 	// equivalent), so we have to check that this thread hasn't enqueued
@@ -1493,6 +1495,7 @@ _dispatch_queue_drain_try_unlock(dispatch_queue_t dq, uint64_t owned, bool done)
 			// nothing to do
 		} else if (unlikely(_dq_state_is_dirty(old_state))) {
 			os_atomic_rmw_loop_give_up({
+				DISPATCH_VERIF_PROBE(0);
 				// just renew the drain lock with an acquire barrier, to see
 				// what the enqueuer that set DIRTY has done.
 				// the xor generates better assembly as DISPATCH_QUEUE_DIRTY
